@@ -1,4 +1,4 @@
-// VERIF: lib rc quick_shards=6
+// VERIF: lib rc quick_shards=6 fuzz=utf8_random_strings
 // C15 - textual and binary encodings round-trip losslessly.
 // Oracles: round trip = identity (bitwise for floats); written bytes = the value's bytes computed by
 // shifting; a hand-written strict UTF-8 codec for valid input; for ill-formed input the model-free
